@@ -251,6 +251,25 @@ def edits1(t, alphabet):
     return sorted(out)
 
 
+def check_tz_gap(acc, pendulum, z, f):
+    from ..ref import tzref
+    kind, inst = tzref.normalize(tzref.zone(z), tuple(f), 1)
+    if kind != "skipped" or inst is None:
+        return
+    ef, eo = obs.expected_render(z, inst)
+    want = ["DateTime", list(ef), eo]
+    for text in ("%04d-%02d-%02dT%02d:%02d:%02d" % tuple(f[:6]), "%04d%02d%02dT%02d%02d%02d" % tuple(f[:6]),
+                 "%04d-%02d-%02d %02d:%02d:%02d" % tuple(f[:6])):
+        acc.c["evaluations"] += 1
+        try:
+            r = pendulum.parse(text, tz=z)
+            got = [type(r).__name__, list(obs.fields(r)), obs.offset_s(r)]
+        except Exception as e:  # noqa: BLE001
+            got = ["EXC", type(e).__name__]
+        if got != want:
+            acc.mismatch("tz-option", "skipped-wall-time-value", {"kind": "tzgap", "z": z, "f": list(f), "s": text}, got, want)
+
+
 def run_shard(shard):
     import warnings
     warnings.simplefilter("ignore")
@@ -332,6 +351,15 @@ def run_shard(shard):
                     acc.mismatch("strict-gate", "accepted-free-text", {"kind": "s", "s": s, "opts": {}, "backend": "compiled"},
                                  list(r1), "ValueError with strict=True")
             acc.sample({"free_text": texts[:4]})
+            # strings without an offset read in a zone (tz option) where that wall time was skipped - including the
+            # zones that skipped a whole calendar day: the value is the documented normalisation (moved forward by the
+            # length of the gap), not one computed from a truncated or wrapped gap length
+            for z in ("Pacific/Apia", "Pacific/Kiritimati", "Pacific/Kwajalein", "Europe/Paris", "Australia/Lord_Howe", "America/Sao_Paulo"):
+                gaps = [tr for tr in seeds.zone_transitions(z) if tr[2] > tr[1] and -2000000000 < tr[0] < 2000000000]
+                big = [tr for tr in gaps if tr[2] - tr[1] >= 86400]
+                for t, ob, oa in (big + gaps[-2:])[:4]:
+                    for w in (t + ob, t + ob + (oa - ob) // 2, t + oa - 1):
+                        check_tz_gap(acc, pendulum, z, seeds.fields_of_wall(w * 1_000_000))
             # the tz option itself: names that are not zones in every way the tz database layout allows (a directory, an
             # empty / non-normalised / escaping key, a file that is not TZif, wrong case), 'local' and 'UTC'
             tzs = ["Europe", "America/Argentina", "Etc", "", "Europe/", "../UTC", "/UTC", "zone.tab", "tzdata.zi", "posixrules",
@@ -348,6 +376,9 @@ def replay_case(case, acc):
     import warnings
     warnings.simplefilter("ignore")
     pendulum, swap = _setup()
+    if case.get("kind") == "tzgap":
+        check_tz_gap(acc, pendulum, case["z"], tuple(case["f"]))
+        return
     s, opts = case["s"], case.get("opts", {})
     worker.horizon(10.0)
     if case.get("kind") == "b":
@@ -357,7 +388,7 @@ def replay_case(case, acc):
             worker.horizon_off()
         return
     try:
-        for cls in ("len1", "len2", "len3", "len4", "len5", "len6", "edit1", "edit2", "trunc", "concat", "bignum", "misc"):
+        for cls in ("len1", "len2", "len3", "len4", "len5", "len6", "edit1", "edit2", "trunc", "concat", "bignum", "misc", "tz-names"):
             check_string(acc, pendulum, swap, s, [opts], cls)
     except worker.Hang:
         acc.mismatch("totality", "HANG", case, "HANG", "terminates")
